@@ -485,22 +485,21 @@ def report_rt_fails(chk: Check, label, traces, results, rejected, detail_of):
     """Register violations for failed clauses; one per (event, clause) so that nothing is masked."""
     seen = set()
     recs = []
-    for r in sorted(results, key=lambda r: r.out):       # shards finish in any order; report deterministically
+    for r in sorted(results, key=lambda r: (r.distinct, r.generated)):       # shards finish in any order; report deterministically
         chk.add_tlc(r, "LLUDPFrame_Trace " + label)
         recs += [x for x in r.printed() if isinstance(x, dict) and "fail" in x]
     recs.sort(key=lambda x: (x["eid"], x["fail"]))
-    for _ in (0,):
-        for rec in recs:
-            if not (isinstance(rec, dict) and "fail" in rec):
-                continue
-            key = (rec["eid"], rec["fail"])
-            if key in seen:
-                continue
-            seen.add(key)
-            m = _CAUSE.search(rec["fail"])
-            clause = _CAUSE.sub("", rec["fail"])
-            feats = {"kind": "rt", "label": label, "clause": clause, "cause": m.group(1) if m else "none"}
-            chk.violation("B3 %s: %s" % (label, rec["fail"]), feats, detail_of(rec["eid"]))
+    for rec in recs:
+        if not (isinstance(rec, dict) and "fail" in rec):
+            continue
+        key = (rec["eid"], rec["fail"])
+        if key in seen:
+            continue
+        seen.add(key)
+        m = _CAUSE.search(rec["fail"])
+        clause = _CAUSE.sub("", rec["fail"])
+        feats = {"kind": "rt", "label": label, "clause": clause, "cause": m.group(1) if m else "none"}
+        chk.violation("B3 %s: %s" % (label, rec["fail"]), feats, detail_of(rec["eid"]))
     for ti, j, ev in rejected:
         chk.violation("B3 %s: record not consumable by LLUDPFrame_Trace" % label,
                       {"kind": "rt-reject", "label": label}, {"event": common._clip(ev)})
@@ -509,7 +508,7 @@ def report_rt_fails(chk: Check, label, traces, results, rejected, detail_of):
 TRACE_CFG = "SPECIFICATION TraceSpec\nPOSTCONDITION TraceAccepted\nCHECK_DEADLOCK FALSE\n"
 
 
-def validate_rt(chk: Check, label, events, details, per_trace=25, shards=common.NCPU):
+def validate_rt(chk: Check, label, events, details, per_trace=25, shards=12):
     for i, e in enumerate(events):
         e["eid"] = i
     traces = [events[i:i + per_trace] for i in range(0, len(events), per_trace)]
